@@ -6,6 +6,7 @@ package httpserver
 // produce, request by request, what the cache-less mux produces for that request.
 
 import (
+	"sort"
 	"fmt"
 	"strings"
 	"testing"
@@ -24,6 +25,7 @@ type c12Config struct {
 	rules []vRule
 	extra string
 	hasIP bool
+	reqs  []vReq // nil: the standard request alphabet
 }
 
 func c12RuleSets() map[string][]vRule {
@@ -91,6 +93,23 @@ func c12Configs() []c12Config {
 		{Prefix: "/", Rewrite: "/r", Backend: "p1"},
 		{Path: "/q", Headers: x1, Methods: []string{"PUT"}, Backend: "p2"},
 	}
+	// spelling variants of every key component: requests that agree up to letter case of the host, a port, letter case
+	// or a trailing slash of the path are different requests whenever the rules tell them apart
+	var variants []vReq
+	for _, host := range []string{"a", "A", "a:80"} {
+		for _, p := range []string{"/p", "/P", "/p/"} {
+			variants = append(variants, vReq{Host: host, Method: "PUT", Path: p, Remote: c12Allowed})
+		}
+	}
+	for n, rules := range map[string][]vRule{
+		"host-exact":       {{Host: "a", Entries: []vEntry{{Path: "/p", Backend: "p1"}}}, {Entries: []vEntry{{Prefix: "/p", Rewrite: "/r", Backend: "p2"}}}},
+		"host-upper":       {{Host: "A", Entries: []vEntry{{Path: "/p", Backend: "p1"}}}, {Host: "a", Entries: []vEntry{{Prefix: "/", Backend: "p2"}}}},
+		"host-regexp":      {{HostRegexp: "^a$", Entries: []vEntry{{Path: "/p", Backend: "p1"}, {Path: "/P", Backend: "p3"}}}},
+		"path-case-prefix": {{Entries: []vEntry{{Path: "/P", Backend: "p1"}, {Prefix: "/p", Backend: "p2"}}}},
+	} {
+		cs = append(cs, c12Config{name: "variants/" + n, rules: rules, reqs: variants})
+	}
+	sort.Slice(cs, func(i, j int) bool { return cs[i].name < cs[j].name })
 	hosts := []vRule{{}, {Host: "a"}, {HostRegexp: "^a"}}
 	for i, e1 := range menu {
 		for j, e2 := range menu {
@@ -181,6 +200,9 @@ func TestVerifC12(t *testing.T) {
 	for _, cfg := range c12Configs() {
 		cfg := cfg
 		reqs := c12Requests(cfg.hasIP)
+		if cfg.reqs != nil {
+			reqs = cfg.reqs
+		}
 		for _, size := range sizes {
 			size := size
 			if strings.HasPrefix(cfg.name, "sys/") && size == 2 {
